@@ -113,10 +113,18 @@ func canonMatrix(m *docgen.N) *docgen.N {
 			v := m.Vals[i]
 			switch k {
 			case "setup":
+				if v.K == docgen.KNull {
+					out.Set("setup", docgen.Str("<no setup key>")) // `setup: null` is the same document as no setup key
+					continue
+				}
 				if v.K == docgen.KSeq {
 					setup.Set("", strList(v))
 				} else if v.K == docgen.KMap {
 					for j, d := range v.Keys {
+						if v.Vals[j].K == docgen.KNull {
+							setup.Set(d, docgen.Str("<null dimension>")) // a nil list is "not a dimension", distinct from an empty one
+							continue
+						}
 						setup.Set(d, strList(v.Vals[j]))
 					}
 				}
@@ -135,6 +143,8 @@ func canonMatrix(m *docgen.N) *docgen.N {
 										for x, d := range av.Keys {
 											w.Set(d, docgen.Str(canonScalarString(av.Vals[x])))
 										}
+									} else if av.K == docgen.KNull {
+										w.Set("<null with>", docgen.Null())
 									} else {
 										w.Set("", docgen.Str(canonScalarString(av)))
 									}
@@ -170,6 +180,9 @@ func canonMatrix(m *docgen.N) *docgen.N {
 	}
 	if !hasContent {
 		return docgen.Null()
+	}
+	if s := out.Get("setup"); s != nil && s.K == docgen.KStr {
+		return out // marked above (setup: null)
 	}
 	if m.K == docgen.KMap && m.Get("setup") == nil {
 		// a non-empty matrix without any `setup` key is a different (degenerate) document than one with an
@@ -222,6 +235,16 @@ func canonSigned(step *docgen.N, repo string, penv map[string]string, signedVars
 					plugins.Items = append(plugins.Items, docgen.Seq(docgen.Str(canonSource(src)), cfg))
 				}
 			}
+		}
+	}
+	if p := step.Get("plugins"); p != nil && p.K == docgen.KMap {
+		// legacy form: one mapping, order significant
+		for j, src := range p.Keys {
+			cfg := p.Vals[j]
+			if isEmptyContainer(cfg) {
+				cfg = docgen.Null()
+			}
+			plugins.Items = append(plugins.Items, docgen.Seq(docgen.Str(canonSource(src)), cfg))
 		}
 	}
 	c.Set("plugins", plugins)
@@ -450,10 +473,18 @@ func stepMutations(step *docgen.N) []stepMut {
 	if p := step.Get("plugins"); p != nil && p.K == docgen.KSeq {
 		for i, it := range p.Items {
 			i := i
+			if it.K == docgen.KStr {
+				if full := canonSource(it.S); full != it.S {
+					spell(fmt.Sprintf("plugin[%d]-short->canonical", i), func(s *docgen.N) { s.Get("plugins").Items[i] = docgen.Str(full) })
+				}
+			}
 			if it.K == docgen.KMap && len(it.Keys) == 1 {
 				src, cfg := it.Keys[0], it.Vals[0]
 				if short, ok := shortSource(src); ok {
 					spell(fmt.Sprintf("plugin[%d]-canonical->short", i), func(s *docgen.N) { s.Get("plugins").Items[i].Keys[0] = short })
+				}
+				if full := canonSource(src); full != src {
+					spell(fmt.Sprintf("plugin[%d]-short->canonical", i), func(s *docgen.N) { s.Get("plugins").Items[i].Keys[0] = full })
 				}
 				if cfg.K == docgen.KNull {
 					spell(fmt.Sprintf("plugin[%d]-null->{}", i), func(s *docgen.N) { s.Get("plugins").Items[i].Vals[0] = docgen.Map() })
@@ -516,6 +547,12 @@ func stepFromTree(n *docgen.N) (*pipeline.CommandStep, error) {
 	var cs pipeline.CommandStep
 	if err := json.Unmarshal([]byte(n.JSON()), &cs); err != nil {
 		return nil, err
+	}
+	for _, pl := range cs.Plugins {
+		if _, form := c17reference(pl.Source); form == "" {
+			// canonicalisation is only specified for the documented source forms (C17)
+			return nil, fmt.Errorf("plugin source %q outside the documented forms", pl.Source)
+		}
 	}
 	if cs.Matrix != nil {
 		for _, a := range cs.Matrix.Adjustments {
